@@ -99,8 +99,48 @@ def candidates(ngram, lines):
     return list(dict.fromkeys(out))
 
 
+# the scorer as the tool runs it (PCFGPasswordScorer.parse, column 4 of password_scorer.py), on strings its PCFG half classifies as e-mail address or
+# website: the OMEN level of a string does not depend on what else the string looks like
+TOOL_LISTS = [['love.com', 'mike@aol.com', 'key.net', 'monkey.com', 'password1', 'dragon12', 'love', 'mike', 'letmein', 'www.love.org', 'love.com', 'mike@aol.com'],
+              ['bob@gmail.com'] * 3 + ['www.site.com', 'site.com', 'http://www.site.com', 'gmail', 'bobby1', 'site99', 'a.ru', 'x@y.org']]
+TOOL_EXTRA = ['love.net', 'mike@love.com', 'key.com', 'dragon.ru', 'a.com', 'love', 'mike@aol', 'aol.com', 'www.love', 'site.org', 'bob@site.com', 'gmail.com1', 'LOVE.COM']
+
+
 def shards(tier):
-    return [('t', i, NSHARDS) for i in range(NSHARDS)]
+    return [('t', i, NSHARDS) for i in range(NSHARDS)] + [('tool', 0, 1)]
+
+
+def run_tool(tier, acc):
+    from . import c13
+    tree.use()
+    fel = tree.imp('lib_trainer.omen.evaluate_password').find_omen_level
+    wd = tree.mkdtemp('pcfgmc-c11t-')
+    for li, lines in enumerate(TOOL_LISTS):
+        for ngram in (2, 3, 4):
+            opts = dict(ngram=ngram, alphabet_size=40)
+            acc.evals += 1
+            case = {'layer': 'tool', 'lines': lines, 'opts': opts}
+            ok, base, out, pi, cap = O.train_capture(wd, lines, **opts)
+            if ok is not True or 'trainer' not in cap:
+                acc.count('training_did_not_complete')
+                continue
+            sc = O.load_scorer_omen(base, 'utf-8')
+            full = c13.make_scorer(base, limit=0, max_omen=9)
+            if full is None:
+                acc.fail(case, 'tool: the scorer cannot load the trained ruleset', 'tool-load')
+                continue
+            for cand in list(dict.fromkeys(lines + TOOL_EXTRA)):
+                t = fel(cap['trainer'], cand)
+                c = sc.parse(cand)
+                r = full.parse(cand)
+                if t != -1:
+                    acc.nontrivial += 1
+                if not (t == c == r[3]):
+                    acc.fail(case, 'tool: string %r (classified %r by the scorer): trainer level %r, OmenScorer level %r, level reported by PCFGPasswordScorer.parse %r (ngram %d)'
+                             % (cand, r[1], t, c, r[3], ngram), 'tool-disagree')
+                    break
+    acc.sample({'layer': 'tool', 'lists': TOOL_LISTS, 'extra_candidates': TOOL_EXTRA}, cap=1)
+    tree.rmtree(wd)
 
 
 def bounds(tier):
@@ -170,6 +210,8 @@ def check_training(wd, lines, opts, acc, want_keyspace=False):
 
 
 def run_shard(shard, tier, acc):
+    if shard[0] == 'tool':
+        return run_tool(tier, acc)
     _, si, ns = shard
     tree.use()
     wd = tree.mkdtemp('pcfgmc-c11-')
@@ -192,6 +234,11 @@ def run_shard(shard, tier, acc):
 
 def replay(case):
     from ..runner import Acc
+    if case.get('layer') == 'tool':
+        acc = Acc()
+        run_tool('quick', acc)
+        fs = [f for f in acc.failures if f['case'].get('lines') == case.get('lines') and f['case'].get('opts') == case.get('opts')]
+        return fs[0]['msg'] if fs else None
     tree.use()
     wd = tree.mkdtemp('pcfgmc-c11r-')
     fails, info = check_training(wd, unrle(case['runs']) if 'runs' in case else case['lines'], case['opts'], Acc())
